@@ -450,10 +450,22 @@ pub open spec fn oversize_alone(t: TelemetryEvent) -> bool { xml_len(seq![t]) >=
 // ------------------------------------------------------------------------------------------------
 // (C) effect trace (E4): what reaches the host and which files are removed
 // ------------------------------------------------------------------------------------------------
-/// one upload: the body handed to WireServerClient::send_telemetry_data and whether the host accepted it
+/// what the network layer is handed for one HTTP request of the telemetry upload and what the host answered:
+/// `body` = every byte of the request body, `status` = the status code of the host's response, None when there is
+/// no response (connection refused, transport error). Recorded by the stub of hyper_client::send_request, the write
+/// primitive: the ONLY assumed effect of an upload.
+pub struct WirePost { pub body: Seq<u8>, pub status: Option<u16> }
+/// "the host ACCEPTED the document": it answered, with a 2xx status (RFC 9110 15.3; `StatusCode::is_success`).
+/// Any other status and the absence of a response are failures.
+pub open spec fn host_accepted(w: WirePost) -> bool { w.status is Some && 200 <= w.status->0 < 300 }
+/// one upload attempt = one call of WireServerClient::send_telemetry_data with a non-empty document: the document and
+/// whether the host accepted it (false also when the attempt failed before anything was written to the network)
 pub struct Post { pub body: Seq<char>, pub ok: bool }
 pub tracked struct Trace {
-    /// every upload, in order (appended by the stub of WireServerClient::send_telemetry_data: the only assumed part)
+    /// every request handed to the network, in order (appended by the stub of hyper_client::send_request: the only assumed part)
+    pub ghost wire: Seq<WirePost>,
+    /// every upload attempt, in order (ghost bookkeeping written by proof blocks in send_telemetry_data; its contract,
+    /// proved against the real body, ties each entry to `wire`: at most one request, carrying the document, ok <==> 2xx)
     pub ghost posts: Seq<Post>,
     /// logical batches: one entry per non-empty TelemetryData that reached the upload loop
     /// (ghost bookkeeping written by send_data_to_wire_server, proved consistent with `posts` by wf)
@@ -481,10 +493,36 @@ pub open spec fn expand(batches: Seq<Seq<TelemetryEvent>>, attempts: Seq<int>, l
             + fails(xml_of(batches.last()), attempts.last() - 1).push(Post { body: xml_of(batches.last()), ok: last_ok.last() })
     }
 }
+/// the request bodies the host ACCEPTED (answered 2xx), in order: what "uploaded to the host" finally means
+pub open spec fn wire_accepts(w: Seq<WirePost>) -> Seq<Seq<u8>>
+    decreases w.len()
+{
+    if w.len() == 0 { seq![] } else { wire_accepts(w.drop_last()) + (if host_accepted(w.last()) { seq![w.last().body] } else { seq![] }) }
+}
+/// the documents (as bytes) of the upload attempts recorded as accepted, in order
+pub open spec fn post_accepts(p: Seq<Post>) -> Seq<Seq<u8>>
+    decreases p.len()
+{
+    if p.len() == 0 { seq![] } else { post_accepts(p.drop_last()) + (if p.last().ok { seq![utf8_bytes(p.last().body)] } else { seq![] }) }
+}
+pub broadcast proof fn lemma_wire_accepts_push(w: Seq<WirePost>, x: WirePost)
+    ensures #[trigger] wire_accepts(w.push(x)) == wire_accepts(w) + (if host_accepted(x) { seq![x.body] } else { seq![] })
+{
+    assert(w.push(x).drop_last() =~= w);
+}
+pub broadcast proof fn lemma_post_accepts_push(p: Seq<Post>, x: Post)
+    ensures #[trigger] post_accepts(p.push(x)) == post_accepts(p) + (if x.ok { seq![utf8_bytes(x.body)] } else { seq![] })
+{
+    assert(p.push(x).drop_last() =~= p);
+}
 impl Trace {
+    /// what the host accepted is exactly the upload attempts recorded as accepted (same documents, same order): `posts`
+    /// neither hides an accepted request nor claims one the host did not accept
+    pub open spec fn host_agrees(self) -> bool { wire_accepts(self.wire) == post_accepts(self.posts) }
     /// every upload is the document of a recorded batch; a batch is re-sent only after a failure, at most 5 times in all;
-    /// every recorded batch is non-empty and smaller than 64 KiB
+    /// every recorded batch is non-empty and smaller than 64 KiB; the attempts recorded as accepted are what the host accepted
     pub open spec fn wf(self) -> bool {
+        &&& self.host_agrees()
         &&& self.attempts.len() == self.batches.len()
         &&& self.last_ok.len() == self.batches.len()
         &&& self.posts == expand(self.batches, self.attempts, self.last_ok)
@@ -492,7 +530,7 @@ impl Trace {
         &&& forall|i: int| 0 <= i < self.batches.len() ==> batch_ok(#[trigger] self.batches[i])
     }
     pub open spec fn same_uploads(self, o: Trace) -> bool {
-        self.posts == o.posts && self.batches == o.batches && self.attempts == o.attempts && self.last_ok == o.last_ok
+        self.wire == o.wire && self.posts == o.posts && self.batches == o.batches && self.attempts == o.attempts && self.last_ok == o.last_ok
     }
 }
 pub broadcast proof fn lemma_fails_len(x: Seq<char>, k: int)
